@@ -1,0 +1,32 @@
+//go:build verif
+
+// Contracts for the acv verifier (/verif). Comment-only file: no executable code.
+
+package acracensor
+
+// The verdict of a handler is a function of the handler, the text and the parsed statement (assumed: `pure`).
+//@ assume func (h QueryHandlerInterface) CheckQuery(sqlQuery string, parsedQuery sqlparser.Statement) (cont bool, err error)
+//@   pure
+//@   modifies nothing
+
+// Chain semantics, written from the property: the first decisive handler wins.
+//   decisive deny  at k : ordinary handler with err != nil
+//   decisive allow at k : ordinary handler with err == nil && !cont, or ignore handler with !cont
+//   passes         at k : capture handler, or ignore handler with cont, or ordinary handler with err == nil && cont
+//@ spec isCapture(h QueryHandlerInterface) bool = typeis(h, *handlers.QueryCaptureHandler)
+//@ spec isIgnore(h QueryHandlerInterface) bool = !typeis(h, *handlers.QueryCaptureHandler) && typeis(h, *handlers.QueryIgnoreHandler)
+//@ spec isOrdinary(h QueryHandlerInterface) bool = !typeis(h, *handlers.QueryCaptureHandler) && !typeis(h, *handlers.QueryIgnoreHandler)
+//@ spec denies(h QueryHandlerInterface, norm string, raw string, st sqlparser.Statement) bool = isOrdinary(h) && ufcall("QueryHandlerInterface.CheckQuery", 1, h, norm, st) != nil
+//@ spec passes(h QueryHandlerInterface, norm string, raw string, st sqlparser.Statement) bool = isCapture(h) || (isIgnore(h) && ufcall("QueryIgnoreHandler.CheckQuery", 0, unbox(h, *handlers.QueryIgnoreHandler), raw, sqlparser.Statement(nil))) || (isOrdinary(h) && ufcall("QueryHandlerInterface.CheckQuery", 1, h, norm, st) == nil && ufcall("QueryHandlerInterface.CheckQuery", 0, h, norm, st))
+
+//@ func (acraCensor *AcraCensor) HandleQuery(rawQuery string) (err error)
+//@   props C05 C16
+//@   safety
+//@   loop 0 invariant 0 <= $n && $n <= len(acraCensor.handlers)
+//@          invariant forall(j, 0, $n, passes(acraCensor.handlers[j], ret(Parser.HandleRawSQLQuery)[0], rawQuery, ret(Parser.HandleRawSQLQuery)[2]))
+//@   ensures unparsed-rejected: called(Parser.HandleRawSQLQuery) && ret(Parser.HandleRawSQLQuery)[3] == sqlparser.ErrQuerySyntaxError && !acraCensor.ignoreParseError ==> err == sqlparser.ErrQuerySyntaxError
+//@   ensures first-deny-wins: called(Parser.HandleRawSQLQuery) && !(ret(Parser.HandleRawSQLQuery)[3] == sqlparser.ErrQuerySyntaxError && !acraCensor.ignoreParseError) ==> forall(k, 0, len(acraCensor.handlers), forall(j, 0, k, passes(acraCensor.handlers[j], ret(Parser.HandleRawSQLQuery)[0], rawQuery, ret(Parser.HandleRawSQLQuery)[2])) && denies(acraCensor.handlers[k], ret(Parser.HandleRawSQLQuery)[0], rawQuery, ret(Parser.HandleRawSQLQuery)[2]) ==> err != nil)
+//@   ensures deny-only-by-handler: called(Parser.HandleRawSQLQuery) && !(ret(Parser.HandleRawSQLQuery)[3] == sqlparser.ErrQuerySyntaxError && !acraCensor.ignoreParseError) && err != nil ==> exists(k, 0, len(acraCensor.handlers), denies(acraCensor.handlers[k], ret(Parser.HandleRawSQLQuery)[0], rawQuery, ret(Parser.HandleRawSQLQuery)[2]))
+//@   at call Parser.HandleRawSQLQuery : assert arg[0] == rawQuery
+//@   at call QueryHandlerInterface.CheckQuery : assert arg[0] == ret(Parser.HandleRawSQLQuery)[0] && arg[1] == ret(Parser.HandleRawSQLQuery)[2]
+//@   at call QueryIgnoreHandler.CheckQuery : assert arg[0] == rawQuery
